@@ -83,3 +83,13 @@ Proof.
   destruct PlateauWitnessP.plateau_pop_shifts_label as [H1 [_ [H3 [_ H5]]]].
   split; [exact H1 | split; [exact H5 | exact H3]].
 Qed.
+
+(* "ignore sequences with a modulus below the binning size": the sequence that is selected
+   passed that test (the centre of its bin exceeds the bin size) unless the fallback label
+   5 was taken *)
+Theorem C05_plateau_selected_passes : forall (T : Type) ltb (zero : T) fuel counts labs bins iv st k,
+  Plateau.select T ltb zero fuel counts labs bins iv st = Ok k ->
+  k = 5%nat \/
+  exists labid, Plateau.first_index k labs 0 = Some labid /\
+                ltb st (nth (nth labid bins 0%nat) iv zero) = true.
+Proof. exact PlateauP.select_spec. Qed.
